@@ -264,15 +264,28 @@ async fn spawn(engine: nu::Engine, store: Store, task: GeneratorTask) {
             PipelineData::Empty => {
                 // Close the channel immediately
             }
-            PipelineData::Value(value, _) => {
-                if let Value::String { val, .. } = value {
+            PipelineData::Value(value, _) => match value {
+                Value::String { val, .. } => {
                     handle
                         .block_on(async { append(store.clone(), &task, "recv", Some(val)).await })
                         .unwrap();
-                } else {
-                    panic!("Unexpected Value type in PipelineData::Value");
                 }
-            }
+                // a list value is emitted element by element, exactly like a list stream
+                Value::List { vals, .. } => {
+                    for value in vals {
+                        if let Value::String { val, .. } = value {
+                            handle
+                                .block_on(async {
+                                    append(store.clone(), &task, "recv", Some(val)).await
+                                })
+                                .unwrap();
+                        } else {
+                            panic!("Unexpected Value type in PipelineData::Value");
+                        }
+                    }
+                }
+                _ => panic!("Unexpected Value type in PipelineData::Value"),
+            },
             PipelineData::ListStream(mut stream, _) => {
                 while let Some(value) = stream.next_value() {
                     if let Value::String { val, .. } = value {
